@@ -66,3 +66,13 @@ Proof.
   split; [vm_compute; reflexivity|].
   eexists. split; vm_compute; reflexivity.
 Qed.
+
+(** DESIGN.md planned [saves_happen] as "every loop iteration after the first ReadMessage of a
+    series delivers a checkpoint".  The faithful model refutes that reading: in the run above
+    the consumer is asked four times (four relay-loop iterations, always answering true, seek
+    source) and receives two checkpoints - PopCheckpoint resets the reader to Idle after
+    WantSave has already been called in that iteration.  The correspondence shows the Go code
+    doing exactly this (offers at every second iteration). *)
+Lemma saves_every_iteration_refuted_lemma :
+  exists s, ex_first = Finished _ _ _ s /\ s_asked _ _ _ s = 4 /\ length (s_offers _ _ _ s) = 2.
+Proof. eexists. split; [vm_compute; reflexivity|]. split; vm_compute; reflexivity. Qed.
